@@ -431,6 +431,20 @@ Section Calls.
         | (RVal _, s1) => (RVal VUnit, s1)
         | other => other
         end
+    | ECallT f args =>
+        match f with
+        | EPath p =>
+            match eval_args eval en args s with
+            | (Some vs, _, s1) => apply_path p vs s1
+            | (None, x, s1) => (x, s1)
+            end
+        | _ => (RStuck, s)
+        end
+    | EMatchC sc arms =>
+        match eval en sc s with
+        | (RVal v, s1) => eval_arms eval en v arms s1
+        | other => other
+        end
     end.
 
   (** running a method body: a propagating `return` becomes the result *)
